@@ -85,14 +85,14 @@ theorem forceClose_unblocks (mr iv : Nat) {s : State} (hr : Reachable (cfg mr iv
           · exact ⟨.nwrite nid .ok, rfl, hn, by simp, by simp [step, stepNwrite, hn, hst, hfn, hc]⟩
 
 /-- **… and returns after boundedly many own steps.**  Every step of a call's own thread strictly
-decreases its rank (`≤ 10`), every step of a notifier strictly decreases the notifier's rank (`≤ 3`),
+decreases its rank (`≤ 10`), every step of a notifier strictly decreases the notifier's rank (`≤ 4`),
 and no action other than clock travel increases a call's rank: between two clock advances a call
 takes at most `rank` own steps before `Do` has returned ("promptly" up to scheduling fairness). -/
 theorem own_steps_bounded (mr iv : Nat) {s s' : State} {a : Action} (hs : step (cfg mr iv) s a = some s') :
     (∀ i c c', s.calls i = some c → s'.calls i = some c' →
       c.rank ≤ 10 ∧ (a.isAdvance = false → c'.rank ≤ c.rank) ∧ (a.ofCall i = true → c'.rank < c.rank)) ∧
     (∀ k n n', s.notifs k = some n → s'.notifs k = some n' →
-      n.rank ≤ 3 ∧ n'.rank ≤ n.rank ∧ (a.ofNotif k = true → n'.rank < n.rank)) := by
+      n.rank ≤ 4 ∧ n'.rank ≤ n.rank ∧ (a.ofNotif k = true → n'.rank < n.rank)) := by
   obtain ⟨h1, h2⟩ := rank_step (cfg := cfg mr iv) guard_in_source hs
   refine ⟨fun i c c' hc hc' => ⟨?_, h1 i c c' hc hc'⟩, fun k n n' hn hn' => ⟨?_, h2 k n n' hn hn'⟩⟩
   · unfold Call.rank; split <;> split <;> omega
